@@ -337,20 +337,6 @@ theorem parseLoop_mono_le {w : World} {n m : Nat} {s : St} {r} (h : parseLoop w 
 
 /-! ### the parse loop: the number of files is bounded -/
 
-/-- number of `.co` files an import path brings in -/
-def nFiles (w : World) (p : String) : Nat :=
-  match w.resolve p with
-  | some (_, items) => (coFiles items).length
-  | none => 0
-
-/-- files still to come: those of the paths of `U` that are not imported yet -/
-def pend (w : World) (k : List String) : List String → Nat
-  | [] => 0
-  | x :: U => (if x ∈ k then 0 else nFiles w x) + pend w k U
-
-/-- bound on the final number of files -/
-def total (w : World) (U : List String) (s : St) : Nat := s.files.length + pend w s.keys U
-
 theorem pend_mono (w : World) (k : List String) (p : String) (U : List String) : pend w (k ++ [p]) U ≤ pend w k U := by
   induction U with
   | nil => simp [pend]
@@ -557,6 +543,36 @@ theorem fromPath_terminates {w : World} {U : List String} (hU : YmlClosed w U) (
     obtain ⟨t₁, ht₁⟩ := e₁.files
     have hp₁ : s₁.parsed = 0 := e₁.parsed
     exact parseLoop_terminates hU hC n s₁ e₁.inv e₁.closed hall₁ (by omega) (by have := e₁.total; omega)
+
+
+/-! ### the decidable form of the closure hypotheses (what the driver evaluates on the real tree) -/
+
+theorem closedItems_sound {w : World} {U : List String} {items : List Item} (h : closedItems w U items = true) :
+    ymlPaths items ⊆ U ∧ ∀ f ∈ coFiles items, ∀ ips, w.parse f = some ips → ips ⊆ U := by
+  unfold closedItems at h
+  simp only [Bool.and_eq_true, List.all_eq_true] at h
+  refine ⟨fun x hx => by simpa using h.1 x hx, ?_⟩
+  intro f hf ips hps x hx
+  have := h.2 f hf
+  rw [hps] at this
+  simp only [List.all_eq_true] at this
+  simpa using this x hx
+
+theorem closedWorld_sound {w : World} {U : List String} {init : List Item} (h : closedWorld w U init = true) :
+    YmlClosed w U ∧ CoClosed w U ∧ ymlPaths init ⊆ U ∧ ∀ f ∈ coFiles init, ∀ ips, w.parse f = some ips → ips ⊆ U := by
+  unfold closedWorld at h
+  simp only [Bool.and_eq_true, List.all_eq_true] at h
+  obtain ⟨hi, hU⟩ := h
+  have hi' := closedItems_sound hi
+  refine ⟨?_, ?_, hi'.1, hi'.2⟩
+  · intro p hp actual items hr
+    have := hU p hp
+    rw [hr] at this
+    exact (closedItems_sound this).1
+  · intro p hp actual items hr
+    have := hU p hp
+    rw [hr] at this
+    exact (closedItems_sound this).2
 
 /-! ### a repeated import path: the loop cannot return -/
 
